@@ -160,9 +160,89 @@ def history(rng, tier, contract=True, msgs=False, http=False):
     return Case(ops, ("contract" if contract else "violating") + ("-msg" if msgs else "") + ("-http" if http else ""), nt, contract)
 
 
+V4MAP = "00000000000000000000ffff"
+
+
+def key_session(rng):
+    """`agg key`: the flow key of records that carry any subset of the seven elements the key is made of. A session asks for
+    the keys of 8..30 records drawn from a small family of five-tuples and their NEAR MISSES - one component changed (a port,
+    the protocol, one address byte), the two addresses swapped, the two ports swapped, an IPv4 address in its 4-byte and in
+    its 16-byte form (the same address), the same 32 bits as an IPv6 prefix (another address), both address families on one
+    side (the IPv6 one is not consulted), elements missing, address values of no legal length (no bytes, 3, 5, 15, 17) -
+    and judges every answer against all earlier ones: the same key exactly for the same five-tuple."""
+    def v4():
+        return rng.choice(["0a000001", "0a000002", "0a000102", "00000000", "ffffffff", "c0a80001", "0a000001"])
+
+    def v6():
+        return rng.choice(["20010db8000000000000000000000001", "20010db8000000000000000000000002", "00000000000000000000000000000000",
+                           "00000000000000000000000000000001", "0a000001000000000000000000000000", V4MAP + "0a000001", V4MAP + "0a000002",
+                           "fe800000000000000000000000000001"])
+    bases = []
+    for _ in range(rng.randint(1, 3)):
+        fam6 = rng.random() < 0.4
+        bases.append(dict(sport=rng.choice([0, 1, 80, 1234, 65535]), dport=rng.choice([0, 1, 80, 5678, 65535]), proto=rng.choice([0, 6, 17, 255]),
+                          src=("6", v6()) if fam6 else ("4", v4()), dst=("6", v6()) if fam6 else ("4", v4())))
+    ops = ["agg new %d %d" % (A, I)]
+    nok = 0
+    for _ in range(rng.randint(8, 30)):
+        b = dict(rng.choice(bases))
+        m = rng.random()
+        if m < 0.12:
+            b["sport"] = rng.choice([b["sport"] ^ 1, b["dport"], (b["sport"] + 256) % 65536])
+        elif m < 0.24:
+            b["dport"] = rng.choice([b["dport"] ^ 1, b["sport"], (b["dport"] + 256) % 65536])
+        elif m < 0.36:
+            b["proto"] = rng.choice([6, 17, b["proto"] ^ 1, 1])
+        elif m < 0.46:
+            b["src"], b["dst"] = b["dst"], b["src"]
+        elif m < 0.52:
+            b["sport"], b["dport"] = b["dport"], b["sport"]
+        elif m < 0.62:
+            side = rng.choice(["src", "dst"])
+            fam, a = b[side]
+            i = rng.randrange(len(a) // 2)
+            b[side] = (fam, a[:2 * i] + "%02x" % (int(a[2 * i:2 * i + 2], 16) ^ rng.choice([1, 0x80, 0xff])) + a[2 * i + 2:])
+        toks = {"src4": "~", "dst4": "~", "src6": "~", "dst6": "~"}
+        for side in ("src", "dst"):
+            fam, a = b[side]
+            form = rng.random()
+            if fam == "4":
+                if form < 0.55:
+                    toks[side + "4"] = "x" + a                      # 4-byte form
+                elif form < 0.8:
+                    toks[side + "4"] = "x" + V4MAP + a              # 16-byte form of the same address
+                elif form < 0.9:
+                    toks[side + "6"] = "x" + V4MAP + a              # ... carried by the IPv6 element
+                else:
+                    toks[side + "6"] = "x" + a + "00" * 12          # the same 32 bits as an IPv6 prefix: another address
+            else:
+                toks[side + "6"] = "x" + a
+                if form < 0.15:
+                    toks[side + "4"] = "x" + v4()                   # both families: the IPv4 address is the key's
+            if form > 0.93:
+                toks[side + "6"] = "x" + v6()                       # an IPv6 address next to an IPv4 one is not consulted
+        r = rng.random()
+        if r < 0.1:
+            toks[rng.choice(list(toks))] = "~"
+        elif r < 0.16:
+            toks[rng.choice(list(toks))] = "x" + rng.choice(["-", "0a0000", "0a00000102", "00" * 15, "00" * 17, "0a"])
+        nums = [str(b["sport"]), str(b["dport"]), str(b["proto"])]
+        if rng.random() < 0.06:
+            nums[rng.randrange(3)] = "~"
+        op = "agg key %s %s %s %s %s %s %s" % (nums[0], nums[1], nums[2], toks["src4"], toks["dst4"], toks["src6"], toks["dst6"])
+        if rng.random() < 0.5:
+            op += " p%d" % rng.randrange(1, 1 << 30)
+        nok += "~" not in nums
+        ops.append(op)
+    return Case(ops, "flow-key", nok >= 2, True)
+
+
 def run(ctx):
     rng = random.Random(ctx.seed * 1000003 + 5)
     cases = []
+    rng6 = random.Random(ctx.seed * 1000003 + 508)
+    for _ in range(400 if ctx.tier == "quick" else 20000):
+        cases.append(key_session(rng6))
     n = 1500 if ctx.tier == "quick" else 60000
     for _ in range(n):
         cases.append(history(rng, ctx.tier, True))
